@@ -451,8 +451,9 @@ pub fn replay(w: &str) -> Vec<Violation> {
     }
     let (lk, lv) = tracker().live();
     if lk != 0 || lv != 0 {
-        println!("      VIOLATED C11 [leak-after-drop]: {lk} keys, {lv} values alive after drop");
-        all.push(Violation { prop: "C11", sig: "leak-after-drop".into(), detail: format!("{lk} keys and {lv} values alive after drop"), witness: String::new() });
+        let sig = format!("{}:leak-after-drop", if cfg.kind == Kind::U { "U" } else { "S" });
+        println!("      VIOLATED C11 [{sig}]: {lk} keys, {lv} values alive after drop");
+        all.push(Violation { prop: "C11", sig, detail: format!("{lk} keys and {lv} values alive after drop"), witness: String::new() });
     }
     all
 }
